@@ -1,5 +1,5 @@
 // C01 - static_vector / inplace_vector / stack vs std::vector within capacity (DESIGN 4, C01)
-// Build: -DVF_ELEM=0|1|2|3 (int, pod, Tracked copy+move, Tracked move-only)  -DVF_CAPS=0,1,2,3
+// Build: -DVF_ELEM=0|1|2|3|4 (int, pod, Tracked copy+move, Tracked move-only, type with an initializer_list constructor)  -DVF_CAPS=0,1,2,3
 #include "vf.hpp"
 #include "vf_contract.hpp"
 #include "vf_tracked.hpp"
@@ -9,6 +9,7 @@
 #include <etl/vector.hpp>
 
 #include <algorithm>
+#include <initializer_list>
 #include <new>
 #include <string>
 #include <type_traits>
@@ -30,6 +31,21 @@ struct Pod {
     friend bool operator<(Pod const& a, Pod const& b) { return a.v < b.v; }
 };
 inline int val(Pod const& p) { return p.v; }
+// an element type that tells "()" construction from "{}" construction: T(a, b) and T{a, b} select different constructors
+struct IL {
+    int v;
+    IL() : v(0) { }
+    IL(int x) : v(x) { } // NOLINT
+    IL(int x, int y) : v(x + y) { }
+    IL(std::initializer_list<int> l) : v(-100 - (int)l.size()) { }
+    friend bool operator==(IL const& a, IL const& b) { return a.v == b.v; }
+    friend bool operator!=(IL const& a, IL const& b) { return a.v != b.v; }
+    friend bool operator<(IL const& a, IL const& b) { return a.v < b.v; }
+    friend bool operator<=(IL const& a, IL const& b) { return a.v <= b.v; }
+    friend bool operator>(IL const& a, IL const& b) { return a.v > b.v; }
+    friend bool operator>=(IL const& a, IL const& b) { return a.v >= b.v; }
+};
+inline int val(IL const& p) { return p.v; }
 using vf::val;
 
 #if VF_ELEM == 0
@@ -44,13 +60,25 @@ inline T mkT(int v) { return Pod{v, 42}; }
 using T = vf::TCM;
 constexpr char const* TNAME = "tracked-copy-move";
 inline T mkT(int v) { return T(v); }
-#else
+#elif VF_ELEM == 3
 using T = vf::TMO;
 constexpr char const* TNAME = "tracked-move-only";
 inline T mkT(int v) { return T(v); }
+#else
+using T = IL;
+constexpr char const* TNAME = "ilist-ctor";
+inline T mkT(int v) { return T(v); }
+#endif
+// constructor ARGUMENTS (not a T) that build the element with value v: what emplace-style members must forward with "()" initialisation
+#if VF_ELEM == 4
+    #define EARGS(v) (v) - 1, 1
+#elif VF_ELEM == 1
+    #define EARGS(v) Pod{(v), 42}
+#else
+    #define EARGS(v) (v)
 #endif
 constexpr bool kCopy    = std::is_copy_constructible_v<T>;
-constexpr bool kTracked = VF_ELEM >= 2;
+constexpr bool kTracked = VF_ELEM == 2 || VF_ELEM == 3;
 using M                 = std::vector<int>;
 constexpr std::size_t kCaps[] = {VF_CAPS};
 constexpr std::size_t kNCaps  = sizeof(kCaps) / sizeof(kCaps[0]);
@@ -87,6 +115,52 @@ struct Arr {
     T const* begin() const { return b.data(); }
     T const* end() const { return b.data() + n; }
 };
+
+// a caller range whose element type is NOT T but converts to it exactly (range overloads must convert element-wise, never copy bytes)
+template <typename Src>
+struct HArr {
+    vf::Buf<Src> b;
+    std::size_t n;
+    explicit HArr(M const& v) : b(v.size()), n(v.size())
+    {
+        for (std::size_t i = 0; i < n; ++i) { b.data()[i] = static_cast<Src>(v[i]); }
+    }
+    Src const* begin() const { return b.data(); }
+    Src const* end() const { return b.data() + n; }
+};
+#if VF_ELEM == 0
+constexpr unsigned kHetKinds = 3;
+#elif VF_ELEM == 2 || VF_ELEM == 4
+constexpr unsigned kHetKinds = 1;
+#else
+constexpr unsigned kHetKinds = 0;
+#endif
+// calls f(first, last) with a range of the k-th other element type (k in 1..kHetKinds)
+template <typename F>
+void with_het(unsigned k, M const& s, F&& f)
+{
+#if VF_ELEM == 0
+    if (k == 1) {
+        HArr<short> a(s);
+        f(a.begin(), a.end());
+        a.b.check("source range");
+    } else if (k == 2) {
+        HArr<long long> a(s);
+        f(a.begin(), a.end());
+        a.b.check("source range");
+    } else {
+        HArr<float> a(s);
+        f(a.begin(), a.end());
+        a.b.check("source range");
+    }
+#elif VF_ELEM == 2 || VF_ELEM == 4
+    HArr<int> a(s);
+    f(a.begin(), a.end());
+    a.b.check("source range");
+#else
+    (void)k; (void)s; (void)f;
+#endif
+}
 
 template <typename V>
 M read_all(V const& v)
@@ -193,6 +267,12 @@ struct SV {
             CR("emplace_back(args)", sit(room == 1 ? "fills" : "fits"), "m=%s v=%d", show(m).c_str(), v);
             if constexpr (VF_ELEM == 1) {
                 e.emplace_back(Pod{v, 1});
+            } else if constexpr (VF_ELEM == 4) {
+                if (ch.flag()) {
+                    e.emplace_back(EARGS(v));
+                } else {
+                    e.emplace_back(v);
+                }
             } else {
                 e.emplace_back(v);
             }
@@ -253,8 +333,9 @@ struct SV {
             if (!room) { return; }
             int v = draw_val();
             CR("emplace(pos,args)", sit(poscls(pos, L), room == 1 ? "fills" : "fits"), "m=%s pos=%zu v=%d", show(m).c_str(), pos, v);
-            auto it  = e.emplace(e.cbegin() + pos, mkT(v));
-            auto off = it - e.begin();
+            bool args = ch.flag(); // constructor arguments forwarded, or a T rvalue
+            auto it   = args ? e.emplace(e.cbegin() + pos, EARGS(v)) : e.emplace(e.cbegin() + pos, mkT(v));
+            auto off  = it - e.begin();
             m.insert(m.begin() + (std::ptrdiff_t)pos, v);
             CV("emplace(pos,args)", vf::mix(pos, v));
             vf::eq_int("ret-offset", off, (long long)pos);
@@ -332,6 +413,16 @@ struct SV {
             if constexpr (kCopy) {
                 M s = draw_seq(room);
                 if (s.size() > room) { return; }
+                if (unsigned hk = kHetKinds ? ch.pick(kHetKinds + 1) : 0) {
+                    CR("insert(pos,first,last):other-element-type", sit(poscls(pos, L), s.empty() ? "empty-range" : (s.size() == room ? "fills" : "fits")),
+                        "m=%s pos=%zu s=%s source-kind=%u", show(m).c_str(), pos, show(s).c_str(), hk);
+                    std::ptrdiff_t off = -1;
+                    with_het(hk, s, [&](auto const* f, auto const* l) { off = e.insert(e.cbegin() + pos, f, l) - e.begin(); });
+                    m.insert(m.begin() + (std::ptrdiff_t)pos, s.begin(), s.end());
+                    CV("insert(pos,first,last):other-element-type", vf::mix(vf::mix(pos, hk), vf::fnv_bytes(s.data(), s.size() * sizeof(int))));
+                    vf::eq_int("ret-offset", off, (long long)pos);
+                    break;
+                }
                 Arr a(s);
                 CR("insert(pos,first,last)", sit(poscls(pos, L), s.empty() ? "empty-range" : (s.size() == room ? "fills" : "fits")), "m=%s pos=%zu s=%s",
                     show(m).c_str(), pos, show(s).c_str());
@@ -383,6 +474,27 @@ struct SV {
             int v       = draw_val();
             auto expect = std::count(m.begin(), m.end(), v);
             CR("erase(c,value)", sit(expect == 0 ? "absent" : ((std::size_t)expect == L ? "all-match" : "some-match")), "m=%s v=%d", show(m).c_str(), v);
+            if constexpr (VF_ELEM == 0) {
+                // the value may have another type than the elements: the comparison is element == value, nothing is converted first
+                unsigned vk = ch.pick(4);
+                if (vk) {
+                    CR("erase(c,value):other-value-type", sit(vk == 3 ? "exactly-representable" : "not-representable-in-T"), "m=%s v=%d value-kind=%u", show(m).c_str(), v, vk);
+                    long long re = 0, rs = 0;
+                    if (vk == 1) {
+                        re = (long long)etl::erase(e, v + 0.5);
+                        rs = (long long)std::erase(m, v + 0.5);
+                    } else if (vk == 2) {
+                        re = (long long)etl::erase(e, (long long)v + (1LL << 32));
+                        rs = (long long)std::erase(m, (long long)v + (1LL << 32));
+                    } else {
+                        re = (long long)etl::erase(e, (short)v);
+                        rs = (long long)std::erase(m, (short)v);
+                    }
+                    CV("erase(c,value):other-value-type", vf::mix(v, vk));
+                    vf::eq_int("ret", re, rs);
+                    break;
+                }
+            }
             T x     = mkT(v);
             auto re = etl::erase(e, x);
             auto rs = std::erase(m, v);
@@ -455,6 +567,14 @@ struct SV {
             if constexpr (kCopy) {
                 M s = draw_seq(N);
                 if (s.size() > N) { return; }
+                if (unsigned hk = kHetKinds ? ch.pick(kHetKinds + 1) : 0) {
+                    CR("assign(first,last):other-element-type", sit(s.empty() ? "empty-range" : (s.size() == N ? "n=cap" : "n<cap")), "m=%s s=%s source-kind=%u",
+                        show(m).c_str(), show(s).c_str(), hk);
+                    with_het(hk, s, [&](auto const* f, auto const* l) { e.assign(f, l); });
+                    m.assign(s.begin(), s.end());
+                    CV("assign(first,last):other-element-type", vf::mix(hk, vf::fnv_bytes(s.data(), s.size() * sizeof(int))));
+                    break;
+                }
                 Arr a(s);
                 CR("assign(first,last)", sit(s.empty() ? "empty-range" : (s.size() == N ? "n=cap" : "n<cap")), "m=%s s=%s", show(m).c_str(), show(s).c_str());
                 T const* f = a.begin();
@@ -588,6 +708,13 @@ struct SV {
                     E x(n, tv);
                     vf::cover("ctor(n,value)", vf::mix(N, vf::mix(n, v)));
                     vf::eq_str("elements", show(read_all(x)), show(M(n, v)));
+                } else if (unsigned hk = kHetKinds ? ch.pick(kHetKinds + 1) : 0) {
+                    CR("ctor(first,last):other-element-type", s.size() == N ? "n=cap" : "n<cap", "s=%s source-kind=%u", show(s).c_str(), hk);
+                    with_het(hk, s, [&](auto const* f, auto const* l) {
+                        E x(f, l);
+                        vf::cover("ctor(first,last):other-element-type", vf::mix(N, vf::mix(h, hk)));
+                        vf::eq_str("elements", show(read_all(x)), show(s));
+                    });
                 } else {
                     Arr a(s);
                     CR("ctor(first,last)", s.size() == N ? "n=cap" : "n<cap", "s=%s", show(s).c_str());
@@ -671,7 +798,7 @@ struct IV {
             case 0: { // try_emplace_back
                 std::snprintf(sit, sizeof sit, "%s,%s", stc(m), room ? "has-room" : "full-must-fail");
                 vf::crumb(subj, "try_emplace_back(args)", sit, "m=%s v=%d", show(m).c_str(), v);
-                T* p = e.try_emplace_back(mkT(v));
+                T* p = ch.flag() ? e.try_emplace_back(EARGS(v)) : e.try_emplace_back(mkT(v));
                 vf::cover("try_emplace_back(args)", vf::mix(sh, v));
                 if (room) {
                     m.push_back(v);
@@ -704,7 +831,7 @@ struct IV {
                     if (!room) { continue; }
                     std::snprintf(sit, sizeof sit, "%s,%s", stc(m), room == 1 ? "fills" : "fits");
                     vf::crumb(subj, "unchecked_emplace_back(args)", sit, "m=%s v=%d", show(m).c_str(), v);
-                    T& r = e.unchecked_emplace_back(mkT(v));
+                    T& r = ch.flag() ? e.unchecked_emplace_back(EARGS(v)) : e.unchecked_emplace_back(mkT(v));
                     m.push_back(v);
                     vf::cover("unchecked_emplace_back(args)", vf::mix(sh, v));
                     vf::eq_bool("returns-back", &r == &e.back(), true);
@@ -820,7 +947,11 @@ struct ST {
             case 1:
                 if (!room) { continue; }
                 vf::crumb(subj, "emplace(args)", st, "m=%s v=%d", show(m).c_str(), v);
-                e.emplace(mkT(v));
+                if (ch.flag()) {
+                    e.emplace(EARGS(v));
+                } else {
+                    e.emplace(mkT(v));
+                }
                 m.push_back(v);
                 vf::cover("stack.emplace(args)", vf::mix(sh, v));
                 break;
